@@ -130,7 +130,8 @@ func specInterrupts() bool {
 //@ invariant [INV-tagmaps] forall(k, 0, 6, has(shortTagMap, k) && shortTagMap[k] != nil)
 //@ invariant [INV-colors] forall(k, implies(has(mLevelColors, Level(k)), len(mLevelColors[Level(k)]) >= 1))
 //@ invariant [INV-width] 1 <= levelOutputWidth && levelOutputWidth <= 5
-//@ invariant [INV-hex] len(hex) == 16
+//@ invariant [INV-graphic] forall(i, 0, len(isGraphic), isGraphic[i] >= 160)
+//@ invariant [INV-hex] len(hex) == 16 && forall(i, 0, 16, (hex[i] >= 48 && hex[i] <= 57) || (hex[i] >= 97 && hex[i] <= 102))
 
 // ---------------------------------------------------------------- C01 gating / C12 termination
 
@@ -2392,6 +2393,7 @@ func specTellable(m LogWriter) bool {
 
 //@ func isInGraphicList
 //@   props C02 C05
+//@   ensures [C05.graphic] implies(result, r >= 160 || r < 0)
 
 //@ func (*PrintCtx).PreAlloc
 //@   props C02
@@ -2462,16 +2464,13 @@ func specTellable(m LogWriter) bool {
 
 
 
+
 // ---- generated by /verif/tools/gen_auto.py: synthesized contracts for the no-panic sweep of printImpl's call tree
 //@ func convertLevelToLogSlog
 //@   props C02
 //@   auto
 
 //@ func (*Entry).printTimestamp
-//@   props C02
-//@   auto
-
-//@ func (*PrintCtx).pcAppendStringKey
 //@   props C02
 //@   auto
 
@@ -2488,14 +2487,6 @@ func specTellable(m LogWriter) bool {
 //@   auto
 
 //@ func (*Entry).printLoggerName
-//@   props C02
-//@   auto
-
-//@ func appendQuotedWith
-//@   props C02
-//@   auto
-
-//@ func appendEscapedRune
 //@   props C02
 //@   auto
 
@@ -2667,10 +2658,6 @@ func specTellable(m LogWriter) bool {
 //@   props C02
 //@   auto
 
-//@ func (*PrintCtx).pcTryQuoteValue
-//@   props C02
-//@   auto
-
 //@ func (colorizeToolS).rightPad
 //@   props C02
 //@   auto
@@ -2696,10 +2683,6 @@ func specTellable(m LogWriter) bool {
 //@   auto
 
 //@ func (*PrintCtx).AddPrefixedString
-//@   props C02
-//@   auto
-
-//@ func (*PrintCtx).pcAppendStringKeyPrefixed
 //@   props C02
 //@   auto
 
